@@ -12,7 +12,7 @@ META = {
              't1, t2); non-trivial = at least 2 knees returned (recursion depth >= 2)'),
     'require': {'recursion': 2500, 'range': 2500, 'nontrivial': 400},
     'scale': {'quick': 1, 'thorough': 60},
-    'quick_cases': 4000, 'thorough_cases': 240000,
+    'quick_cases': 10000, 'thorough_cases': 240000,
     'assumptions': ['the single-knee detectors are deterministic (C20 decides that)',
                     'only the default straightness metric (SMAPE) is exercised: no bundled detector passes another one'],
 }
